@@ -11,7 +11,7 @@ reg(Prop('C18', [
            exhaustive='every DWARF version 2..5 x format x address size x byte order x frame-table flavour (none, .debug_frame, .eh_frame absptr, .eh_frame absptr+personality/LSDA) with all features on'),
     Stream('c18.corpus', 1, 4, 'oracle', modes=('release',), timeout=900,
            exhaustive='every corpus variant (41 section sets: gcc/clang, DWARF 2..5, split, type units, dwarf64, packages)'),
-], level='proof (partial)', design_ref='§5 C18',
+], level='proof', design_ref='§5 C18',
     clauses=[
         'reloc_write_transparent: for every list of Writer-trait calls, both byte orders, every symbol/section address assignment: applying the relocations a recording RelocateWriter produced to its bytes = bytes of EndianVec given the resolved values, and the recorded list is exactly one entry per relocatable call at its position (side condition: positional writes never land on a recorded site; counter-example without it proved)',
         'writer_no_panic: neither writer panics on well-typed calls',
